@@ -124,25 +124,31 @@ func classify(chain []string) int {
 		return -1
 	}
 	last := m[len(m)-1]
+	// an instruction of Conc.v is the acquisition made BY the method itself (or, for the id generators, by the
+	// generator it delegates to); a further acquisition nested inside its critical section (another lock taken
+	// while the method's own is held) belongs to the same critical section and is no scheduling point of its own
+	inGen := strings.HasPrefix(last, "(*SequentialIDGenerator).")
 	switch {
 	case last == "(*SessionStore).GetByGlobalID":
 		return opGet
-	case has("(*SessionStore).NewID") >= 0:
+	case has("(*SessionStore).NewID") >= 0 && inGen:
 		return opNewID
 	case last == "(*SessionStore).Add":
 		return opAdd
-	case has("(*Session).NewParticipantID") >= 0:
+	case has("(*Session).NewParticipantID") >= 0 && inGen:
 		return opNewPID
-	case has("(*Session).AddParticipant") >= 0:
+	case last == "(*Session).AddParticipant":
 		return opAddP
-	case has("(*Session).RemoveParticipant") >= 0:
+	case last == "(*Session).RemoveParticipant":
 		return opRmP
-	case has("(*Session).ParticipantCount") >= 0:
+	case last == "(*Session).ParticipantCount":
 		return opCount
 	case last == "(*SessionStore).Remove":
 		return opRemA
 	case has("(*SessionStore).Remove") >= 0:
 		return opRemB
+	case has("(*Session).AddParticipant") >= 0 || has("(*Session).RemoveParticipant") >= 0 || has("(*Session).ParticipantCount") >= 0:
+		return opTau
 	}
 	for _, f := range m {
 		if strings.HasPrefix(f, "(*SessionStore).") {
